@@ -203,6 +203,50 @@ def case_exp(H, g, f32=False):
             H.reach('%s/path%d/reach' % (name, pn), hyp)
 
 
+def case_batch_mixed(H, g):
+    """a batch that mixes a rotation-free twist with a generic one (whole-batch shortcuts / mask arithmetic inside Exp): every row of
+    the batched Exp must be the Exp of that row alone (which the single-item cases characterise)"""
+    name = 'C01/%s/Exp/batch(rotation-free, generic)' % ALG[g]
+    n = ADIM[g]
+    pidx = aparts(g, list(range(n)))[1]
+
+    def rows(a):
+        full = pp.LieTensor(a, ltype=ATYPE[g]).Exp().tensor()
+        items = [pp.LieTensor(a[k], ltype=ATYPE[g]).Exp().tensor() for k in range(a.shape[0])]
+        return full, items
+
+    def prog(m):
+        a = torch.stack([rand_alg(g, 85), rand_alg(g, 86)])
+        with torch.no_grad():
+            for k in pidx:
+                a[0, k] = 0.0
+        as_ = m.symbolic(a, 'a')
+        m.set_terms(a, [z3.RealVal(0) if (i < n and i in pidx) else v for i, v in enumerate(as_)])
+        ta, ph, sg = aparts(g, as_[n:])
+        m.ctx.assume += [T.dot(ph, ph) > z3.RealVal('1/100'), T.dot(ph, ph) < 4]
+        if sg is not None:
+            for v in (as_[n - 1], as_[2 * n - 1]):
+                m.ctx.assume += [z3.Or(v > z3.RealVal('1/100'), v < -z3.RealVal('1/100')), v < 2, v > -2]
+        full, items = rows(a)
+        return m.full_terms(full), [t_ for it in items for t_ in m.full_terms(it)]
+
+    def replay(model):
+        a = tensor_from_env(['a%d' % i for i in range(2 * n)], model).view(2, n)
+        if float(a.abs().sum()) == 0:
+            a = torch.stack([rand_alg(g, 85), rand_alg(g, 86)])
+        for k in pidx:
+            a[0, k] = 0.0
+        full, items = rows(a)
+        e = (full - torch.stack(items)).abs().max().item()
+        return e > 1e-9, 'batched Exp of [rotation-free, generic] %s twists differs from the row-wise Exp by %.3g' % (ALG[g], e)
+
+    for ctx, (full, items) in run_paths(H, name, prog, max_paths=8):
+        hyp = H.hyps_of(ctx)
+        H.prove('%s/path%d/same-length' % (name, H.paths), [], z3.BoolVal(len(full) == len(items)), replay=replay, key='C01/%s/batch' % ALG[g])
+        for i, (l, r) in enumerate(zip(full, items)):
+            H.same('%s/path%d/row-entry[%d]' % (name, H.paths, i), hyp, l, r, ctx, replay=replay, key='C01/%s/batch' % ALG[g], timeout=15)
+
+
 def case_rounding_C(H, f32=False):
     """standard-model rounding analysis of the scalar coefficient C(sigma) = (e^sigma - 1)/sigma of the sim3/rxso3 coupling matrix,
     observed through the public API as the x-translation of sim3([1,0,0, 0,0,0, sigma]).Exp()"""
@@ -314,7 +358,7 @@ def case_rounding_W(H, f32=False):
 def run(H):
     H.assumptions += ['exact real arithmetic for the identity obligations; the standard model of floating-point arithmetic (|delta|<=u per operation, '
                       'libm functions within 1 ulp, no under/overflow) for the rounding obligation', '|sigma| <= 8']
-    H.bounds += ['single items (batching is C06)', 'float64 thresholds (float32 thresholds in the thorough tier)',
+    H.bounds += ['single items, plus batches of two mixing a rotation-free and a generic twist (general batching is C06)', 'float64 thresholds (float32 thresholds in the thorough tier)',
                  'rounding model only for the scalar coefficient C(sigma); accuracy of the A, B coefficients in the bands where both theta and sigma '
                  'are tiny is NOT covered']
     only = getattr(H, 'only', None)
@@ -328,6 +372,14 @@ def run(H):
         except Exception as e:
             import traceback; traceback.print_exc()
             H.engine_error('exp/' + g, e)
+    for g in ('SE3', 'Sim3'):
+        if only and only not in 'batch':
+            continue
+        try:
+            case_batch_mixed(H, g)
+        except Exception as e:
+            import traceback; traceback.print_exc()
+            H.engine_error('batch/' + g, e)
     for f32 in (False, True):
         if only and only not in 'rounding':
             continue
